@@ -145,10 +145,10 @@ def c09(tier, seed):
 
 
 def c17(tier, seed):
-    jobs = [J('vh_c17_constructors', [g], 'group %d' % g) for g in range(0, 5)]
+    jobs = [J('vh_c17_constructors', [g], 'group %d' % g) for g in range(0, 13)]
     return {'jobs': jobs,
             'bounds': 'From<u32>/From<&[u32]>/From<Vec<u32>>/From<&[u32;3]> on symbolic u32 (full range); From<char>/From<&str>/From<String>/'
-                      'parse_smt_literal on a symbolic Rust char over all scalar values (U+0000..U+10FFFF without surrogates); is_good of '
+                      'parse_smt_literal (plain text and after each unfinished escape prefix \\, \\u, \\u1, \\u12, \\u123, \\u{, \\u{1, \\u{12345) on a symbolic Rust char over all scalar values (U+0000..U+10FFFF without surrogates); is_good of '
                       'every result is additionally asserted in the C05/C06/C08/C10 harnesses',
             'outside': ['strings with more than 3 characters built through the conversions']}
 
@@ -302,7 +302,9 @@ def c01(tier, seed):
             jobs.append(RJ('vh_c01_member', 0, n, b, 0, sh, 'member %s |w|=%d' % (S.show(sh), n)))
         if k % 4 == seed % 4:
             jobs.append(RJ('vh_c01_member', 1, ns[-1] if tier == 'quick' else 2, b, 0, sh, 'member via re_* wrappers %s' % S.show(sh)))
-    return regex_spec(jobs, shapes, tier, 'str_in_re and nullable against the SMT-LIB denotation (ReManager API and, for every 4th shape, the re_* wrappers)', ns[-1], b)
+        if not isinstance(sh, str) and sh[0] in ('concat', 'union', 'inter', 'diff') and (tier == 'thorough' or k % 2 == seed % 2):
+            jobs.append(RJ('vh_c01_member', 2, ns[-1] if tier == 'quick' else 2, b, 0, sh, 'member via *_list constructors %s' % S.show(sh)))
+    return regex_spec(jobs, shapes, tier, 'str_in_re and nullable against the SMT-LIB denotation (ReManager API; for every 4th shape the re_* wrappers; for binary-operator shapes the n-ary *_list constructors)', ns[-1], b)
 
 
 def c03(tier, seed):
@@ -408,8 +410,13 @@ def c07(tier, seed):
 
 def c10(tier, seed):
     shapes = regex_shapes('C10', tier, seed, cap_thorough=100)
-    ns, tl, b = ((2,), 1, 2) if tier == 'quick' else ((1, 2, 3), 1, 2)
+    ns, tl, b = ((0, 1, 2), 1, 2) if tier == 'quick' else ((0, 1, 2, 3), 1, 2)
     jobs = [RJ('vh_c10_replace', 1, n, b, tl, sh, 'replace_re / replace_re_all pattern %s |s|=%d |t|=%d' % (S.show(sh), n, tl)) for sh in shapes for n in ns]
+    # longer subjects for patterns whose matches can overlap a failed partial match (needs |pattern| >= 3, |s| >= 4)
+    long_pats = [('str', 3), ('concat', 'char', ('concat', 'char', 'char')), ('union', ('str', 3), ('str', 2))]
+    for sh in long_pats:
+        for n in ((4,) if tier == 'quick' else (4, 5)):
+            jobs.append(RJ('vh_c10_replace', 1, n, b, 1, sh, 'replace_re / replace_re_all pattern %s |s|=%d |t|=1' % (S.show(sh), n)))
     return regex_spec(jobs, shapes, tier, 'str_replace_re / str_replace_re_all through the thread-local manager: leftmost-then-shortest (possibly empty) match, resp. '
                       'left-to-right leftmost-shortest non-empty matches, as boolean formula over all concrete (i,j); replacement of length %d' % tl, ns[-1], b)
 
